@@ -90,6 +90,12 @@ type built struct {
 	parent []*expr.AttributeExpr // the attribute whose Type is the node (nil: the root, or a user type reached first elsewhere)
 }
 
+// every other user type without a UID (dsl.Type) is renamed with Meta("struct:type:name", ...), as designs do to
+// choose the Go type name: Name() and ID() then differ from TypeName
+const metaTypeName = "struct:type:name"
+
+func renamed(id int) bool { return id%4 == 2 }
+
 func build(g Graph) *built {
 	n := len(g.Nodes)
 	b := &built{node: make([]expr.DataType, n+1), parent: make([]*expr.AttributeExpr, n+1)}
@@ -102,7 +108,11 @@ func build(g Graph) *built {
 		}
 		switch nd.Kind {
 		case "user":
-			users[id] = &expr.UserTypeExpr{TypeName: nd.Name, UID: uid}
+			if renamed(id) { // the name the design reads (UserTypeExpr.Name, ID) comes from the meta, not from TypeName
+				users[id] = &expr.UserTypeExpr{TypeName: "Orig" + nd.Name}
+			} else {
+				users[id] = &expr.UserTypeExpr{TypeName: nd.Name, UID: uid}
+			}
 		case "result":
 			ident := "application/vnd.t" + strconv.Itoa(id)
 			users[id] = &expr.ResultTypeExpr{UserTypeExpr: &expr.UserTypeExpr{TypeName: nd.Name, UID: ident}, Identifier: ident}
@@ -136,7 +146,14 @@ func build(g Graph) *built {
 				if len(nd.Attrs) != 1 {
 					vio.Die("user type node %d needs one attribute", r.N)
 				}
-				u.SetAttribute(mkAttr(nd.Attrs[0]))
+				att := mkAttr(nd.Attrs[0])
+				if nd.Kind == "user" && renamed(r.N) {
+					if att.Meta == nil {
+						att.Meta = expr.MetaExpr{}
+					}
+					att.Meta[metaTypeName] = []string{nd.Name}
+				}
+				u.SetAttribute(att)
 			}
 			return u
 		}
@@ -262,7 +279,7 @@ func (w *walker) ref(dt expr.DataType) Ref {
 		nd.Kind, nd.Name = "result", t.TypeName
 		nd.Attrs = append(nd.Attrs, w.attr("", t.Attribute()))
 	case *expr.UserTypeExpr:
-		nd.Kind, nd.Name = "user", t.TypeName
+		nd.Kind, nd.Name = "user", t.Name()
 		nd.Attrs = append(nd.Attrs, w.attr("", t.Attribute()))
 	default:
 		nd.Kind = "?" + fmt.Sprintf("%T", dt)
@@ -322,7 +339,7 @@ func (w *walker) attr(name string, att *expr.AttributeExpr) Attr {
 			} else {
 				a.Tags.Type = val
 			}
-		case "name:original": // left behind by UserTypeExpr.Rename, not part of the vocabulary
+		case "name:original", metaTypeName: // left behind by UserTypeExpr.Rename / the type's name (projected as the node's name)
 		default:
 			a.X++
 		}
@@ -433,7 +450,11 @@ func named(dt expr.DataType) *[]*expr.NamedAttributeExpr {
 func setTypeName(dt expr.DataType, n string) {
 	switch t := dt.(type) {
 	case *expr.UserTypeExpr:
-		t.TypeName = n
+		if _, ok := t.AttributeExpr.Meta[metaTypeName]; ok {
+			t.AttributeExpr.Meta[metaTypeName] = []string{n}
+		} else {
+			t.TypeName = n
+		}
 	case *expr.ResultTypeExpr:
 		t.TypeName = n
 	default:
@@ -696,7 +717,16 @@ func applyStep(root expr.DataType, s Step) {
 		one := 1
 		ensureValidation(attrAt(dt, s.Idx)).Merge(&expr.ValidationExpr{MinLength: &one, Required: []string{map[string]string{"orig": "o2", "copy": "c2"}[s.Side]}})
 	case "setattr":
-		dt.(expr.UserType).SetAttribute(fresh())
+		ut, att := dt.(expr.UserType), fresh()
+		if old := ut.Attribute(); old != nil { // the new attribute keeps the type's name
+			if v, ok := old.Meta[metaTypeName]; ok && len(v) > 0 {
+				if att.Meta == nil {
+					att.Meta = expr.MetaExpr{}
+				}
+				att.Meta[metaTypeName] = []string{v[0]}
+			}
+		}
+		ut.SetAttribute(att)
 	case "rename":
 		dt.(expr.UserType).Rename("Z")
 	case "type":
